@@ -231,12 +231,29 @@ class Gen:
             for i in range(self.nf): acts.append(f"reg f{i} 100")
             for i in range(self.nf):
                 L.append(f"on f{i}.in * : rd f{i}")
+                # once the kernel-timer path has engaged (same deadline seen on >= 5 waits), move the deadline
+                # earlier / later / away from a descriptor handler: the kernel timer must be cleared and re-armed
+                if self.nt and r.random() < 0.7:
+                    k = r.choice([6, 7, 8, 9])
+                    t = r.randrange(self.nt)
+                    L.append(f"on f{i}.in {k} : " + r.choice([f"?tunreg t{t} ; trel t{t} {r.choice([100000, 1000000, 3000000])}",
+                                                              f"?trel t{(t + 1) % max(self.nt, 1)} {r.choice([100000, 2000000])}",
+                                                              f"?tunreg t{t}", f"?tunreg t{t} ; trel t{t} 5000000000"]))
         if fam == "churn":
             for i in range(self.nf): acts.append(f"reg f{i} {self.flags()}")
         if fam == "tasks":
             for i in range(1, self.nk + 1): acts.append(f"kreg k{i}")
         acts += [self.action(unguarded=0.02) for _ in range(r.choice([2, 4, 8, 12]))]
         acts = [a for a in acts if "quit" not in a]
+        if fam == "deadline" and self.nf and self.nt and r.random() < 0.5:
+            # kernel-timer shape: the default (timerfd) method, a far deadline, and a descriptor wake-up on every one of the
+            # first waits, so that the same deadline is seen on >= 5 consecutive waits and the kernel timer engages
+            L[:] = [l for l in L if not l.startswith("exclude") and not l.startswith("at ")]
+            L[:] = [(" ".join(t for t in l.split() if t != "notimerfd") if l.startswith("cfg") else l) for l in L]
+            for w in range(0, r.choice([7, 10, 14])):
+                L.append(f"at {w} : wr f0 1")
+            acts = [f"reg f0 100"] + [f"trel t{i} {r.choice([50000000, 200000000, 1000000000]) + i}" for i in range(self.nt)] + \
+                   [a for a in acts if a.startswith(("?", "clk", "inval", "valid"))][:3]
         L.append("do " + " ; ".join(acts))
         L.append("main")
         if r.random() < (0.7 if fam == "lifecycle" else 0.4):
